@@ -24,7 +24,10 @@ The model observation is `call (refEnv lossy64)` — the wrapper with fixes/F09 
 over the schemas the registration model (`World.step`: `setSchema` through the case's shared
 `SchemaCache`s, after the whole history of the case) says the tool ENFORCES. The monitor judges the
 implementation's observation against `call (refEnv id)` over the tool's OWN schemas (declared, else
-inferred from its Go type): validity by the reference validator on exact numbers. Disagreements between `jsonschema-go` (fields `lib`/`olib`,
+inferred from its Go type): validity by the reference validator on exact numbers. The handler's observed
+input is also read back (`parseCanonTok`) and judged member-wise: a struct field that does not hold the
+decoding of the validated member of EXACTLY its JSON name but does hold that of a differently spelled
+member gives the clause `handler_sees_exactly_validated_members` (with the member's path). Disagreements between `jsonschema-go` (fields `lib`/`olib`,
 computed by the harness on exactly decoded values) and the reference validator are reported with the
 clause prefix `LIBDISC` and excluded from the verdict.
 -/
